@@ -830,7 +830,27 @@ def r12_16(ctx):
     r.scope.append(b.name)
     pushes = [bi for bi, t, p in b.calls() if p and p.endswith("::push") and t["a"] and mir.has_field(b.term_operand(t["a"][0]), "data_channels")]
     r.need("registry push in create_data_channel", len(pushes), 1)
-    opens = [bi for bi, t, p in b.calls() if p and p.endswith("SctpTransport::open_negotiated_channel") and bi not in b.cleanup]
+    def announces_open(fn, depth=2):
+        # the callee (or a crate function it calls) sends DataChannelEvent::Open - found by what it does, not by its name
+        if not ctx.facts.has_body(fn):
+            return None
+        cb = ctx.facts.body(fn)
+        for bi, t, p in cb.calls():
+            if p and p.endswith("DataChannel::send_event") and len(t["a"]) > 1 and \
+                    mir.has(cb.term_operand(t["a"][1]), lambda x: x[0] == "agg" and x[2] == "Open"):
+                return fn
+            if depth and p and p.startswith("transports::") and p != fn:
+                sub = announces_open(p, depth - 1)
+                if sub:
+                    return sub
+        return None
+    opens, opener = [], None
+    for bi, t, p in b.calls():
+        if p and bi not in b.cleanup and p.startswith("transports::") and not p.endswith("DataChannel::new"):
+            w = announces_open(p)
+            if w:
+                opens.append(bi)
+                opener = w
     if not opens:
         r.violate(b.name, "open:late-negotiated", b.where(pushes[0]),
                   "create_data_channel never announces a negotiated channel: created after the association is up it stays Connecting, "
@@ -843,17 +863,30 @@ def r12_16(ctx):
             r.violate(b.name, "open:before-registration", b.where(bi),
                       "the negotiated channel is offered for opening before it is in the registry: if the association comes up in between, "
                       "neither the handshake completion nor this call announces it")
-    fn = "transports::sctp::SctpTransport::open_negotiated_channel"
-    ob = ctx.body(fn)
-    r.scope.append(fn)
-    ev = [bi for bi, t, p in ob.calls() if p and p.endswith("DataChannel::send_event") and
-          mir.has(ob.term_operand(t["a"][1]), lambda x: x[0] == "agg" and x[2] == "Open")]
-    if ev:
-        r.ok({"site": ob.where(ev[0]), "announces": "Open"})
-    else:
-        r.violate(fn, "open:none", ob.where(0), "open_negotiated_channel does not announce Open")
+    r.scope.append(opener)
+    r.ok({"opener": opener, "announces": "Open (site counted and checked by R12.1)"})
+    return r
+
+
+def r12_17(ctx):
+    """'partially-reliable channels may drop ... but never' lose a message of ANOTHER channel: the FORWARD-TSN that
+    abandons a PR message tells the receiver to discard every buffered chunk up to the new cumulative TSN. That is only
+    right while the ack point has moved over abandoned chunks exclusively; stepping over a chunk that is merely gap-acked
+    makes the receiver throw away (and the sender forget) a message of a reliable channel that shares the association,
+    and an ordered stream behind it never advances. This is rule R01.11 of C01 (same site, same guard), claimed here
+    for the clause of C12 it decides."""
+    r = RuleResult("R12.17", "K1", "FORWARD-TSN never covers a chunk that was not abandoned")
+    from rules import c01
+    rr = c01.r01_11(ctx)
+    r.scope = rr.scope
+    r.obligations, r.discharged = rr.obligations, rr.discharged
+    r.sites, r.floor = rr.sites, rr.floor
+    r.samples = rr.samples
+    for v in rr.violations:
+        r.violate(v.fn, v.site, v.where, v.msg, v.path)
+        r.obligations -= 1
     return r
 
 
 def run(ctx):
-    return [r12_1(ctx), r12_2(ctx), r12_2b(ctx), r12_3(ctx), r12_4(ctx), r12_5(ctx), r12_7(ctx), r12_8(ctx), r12_9(ctx), r12_10(ctx), r12_11(ctx), r12_12(ctx), r12_13(ctx), r12_14(ctx), r12_15(ctx), r12_16(ctx)]
+    return [r12_1(ctx), r12_2(ctx), r12_2b(ctx), r12_3(ctx), r12_4(ctx), r12_5(ctx), r12_7(ctx), r12_8(ctx), r12_9(ctx), r12_10(ctx), r12_11(ctx), r12_12(ctx), r12_13(ctx), r12_14(ctx), r12_15(ctx), r12_16(ctx), r12_17(ctx)]
